@@ -2,7 +2,7 @@
 import json, os
 import vkit
 
-ALL_INV = ["TypeOK", "Conserved", "EofAfterAllData", "EofAtMostOnce", "ReadCbOnlyAboveLow", "InputNeverAboveHigh",
+ALL_INV = ["TypeOK", "FilterRespectsUnderlyingHigh", "Conserved", "EofAfterAllData", "EofAtMostOnce", "ReadCbOnlyAboveLow", "InputNeverAboveHigh",
            "NoStall", "NothingAfterFree", "ConnectedOnceAndFirst", "TimeoutOnlyIfDue", "TimerIff", "TimerNotLate"]
 
 
@@ -129,6 +129,38 @@ def sock_highmark_family():
                                {"a": "wm", "e": 2, "m": 2, "lo": lo, "hi": hi}, {"a": "write", "e": 1, "n": n},
                                {"a": "loop", "e": 1, "t": 0}, {"a": "loop", "e": 2, "t": 0}]
                         out.append(sc)
+    return out
+
+
+def wm_reset_family(kind):
+    """Reader = endpoint 2: read high watermark set to H, cleared, set to H again; the peer writes more than H; the
+    application drains from OUTSIDE the read callback; reading must resume as soon as it is below the mark."""
+    out = []
+    lp = (lambda: [{"a": "loop", "e": 1, "t": 0}]) if kind == "pair" else \
+         (lambda: [{"a": "loop", "e": 1, "t": 0}, {"a": "loop", "e": 2, "t": 0}])
+    wm = lambda hi: {"a": "wm", "e": 2, "m": 2, "lo": 0, "hi": hi}
+    for H in (1, 2):
+        for k in (1, 99):
+            for first in (0, 1):
+                for again in (1, 0):        # again = 0: the watermark is set only once (control)
+                    wms = [wm(H), wm(0), wm(H)] if again else [wm(H)]
+                    en = [{"a": "enable", "e": 2, "m": 2}]
+                    sc = (en + wms if first else wms + en) + [{"a": "write", "e": 1, "n": H + 2}] + lp() + \
+                         [{"a": "read", "e": 2, "n": k}] + lp() + [{"a": "read", "e": 2, "n": 99}] + lp()
+                    out.append(sc)
+    return out
+
+
+def filt_under_high_family():
+    """Filter (endpoint 3) over pair endpoint 1 whose partner does not read: the underlying write high watermark is W,
+    the application writes more than W units: in normal mode the underlying output never exceeds W."""
+    out = []
+    for W in (1, 2, 3):
+        for n in (W + 1, W + 2):
+            out.append([{"a": "wm", "e": 1, "m": 4, "lo": 0, "hi": W}, {"a": "write", "e": 3, "n": n}, {"a": "loop", "e": 1, "t": 0},
+                        {"a": "write", "e": 3, "n": 1}, {"a": "enable", "e": 2, "m": 2}, {"a": "loop", "e": 1, "t": 0}])
+            out.append([{"a": "write", "e": 3, "n": 1}, {"a": "wm", "e": 1, "m": 4, "lo": 0, "hi": W}, {"a": "write", "e": 3, "n": n},
+                        {"a": "loop", "e": 1, "t": 0}])
     return out
 
 
